@@ -28,6 +28,8 @@ def validate(c, pid, trace_path):
 
 def run_bin(c, exe, args, what):
     p = vlib.run([exe] + args)
+    if p.returncode in (-9, 137, -15):
+        raise vlib.ToolError("retain %s was killed (exit %d), not a verdict" % (what, p.returncode))
     if p.returncode != 0:
         last = [l for l in p.stderr.splitlines() if l.startswith("@")]
         rp = c.replay_file("crash_%s.txt" % what, (last[-1] if last else "") + "\n" + p.stderr[-2000:])
